@@ -87,13 +87,14 @@ def showSt (s : St) : String :=
 def showSpec (s : SpecSt) : String :=
   s!"proto={verStr s.proto} nodes=[" ++ "|".intercalate (s.nodes.map fun (k, n) => showNode k n) ++ "]"
 
-def parseFaults (s : String) : Option (List Bool) :=
-  if s = "-" then some [] else s.toList.mapM fun c => if c = '1' then some true else if c = '0' then some false else none
+def parseFaults (s : String) : Option (List Fault) :=
+  if s = "-" then some [] else s.toList.mapM fun c =>
+    if c = '1' then some .fail else if c = '0' then some .pass else if c = 'c' then some .cancel else none
 
 def parseBool : String → Option Bool
   | "1" => some true | "0" => some false | _ => none
 
-def runM {α : Type} (st : DState) (faults : List Bool) (x : M α) (showA : α → String) : DState × String :=
+def runM {α : Type} (st : DState) (faults : List Fault) (x : M α) (showA : α → String) : DState × String :=
   match x { st := st.gw, faults := faults } with
   | (.ok a, w) => ({ st with gw := w.st }, showA a ++ showWrites w.writes)
   | (.error e, w) => ({ st with gw := w.st }, showExn e ++ showWrites w.writes)
@@ -169,6 +170,15 @@ def stepCore (st : DState) (line : String) : DState × String :=
       let env := { st.env with year := y, month := mo, day := d, hour := h, minute := mi, second := sec }
       pure (st, match decode st.gw.proto line with
         | some m => "spec" ++ showWrites (expectedAttempts env st.gw m faults)
+        | none => "invalid")).getD (st, "bad-op")
+  | ["gspecx", line, faults, y, mo, d, h, mi, sec] =>
+    -- the exception the specification says the step ends in because of its writes (`expectedExn`), or `none`
+    (do
+      let line ← decodeStr line; let faults ← parseFaults faults
+      let y ← y.toNat?; let mo ← mo.toNat?; let d ← d.toNat?; let h ← h.toNat?; let mi ← mi.toNat?; let sec ← sec.toNat?
+      let env := { st.env with year := y, month := mo, day := d, hour := h, minute := mi, second := sec }
+      pure (st, match decode st.gw.proto line with
+        | some m => (match expectedExn env st.gw m faults with | some e => showExn e | none => "none")
         | none => "invalid")).getD (st, "bad-op")
   | "gsend" :: buffer :: faults :: rest =>
     (do
